@@ -32,9 +32,9 @@ type hctx struct {
 }
 
 func (c *hctx) Deadline() (t0 time.Time, ok bool) { return }
-func (c *hctx) Done() <-chan struct{}         { return c.done }
-func (c *hctx) Err() error                    { return c.err }
-func (c *hctx) Value(any) any                 { return nil }
+func (c *hctx) Done() <-chan struct{}             { return c.done }
+func (c *hctx) Err() error                        { return c.err }
+func (c *hctx) Value(any) any                     { return nil }
 func (c *hctx) cancel() {
 	if c.err == nil {
 		c.err = context.Canceled
